@@ -351,7 +351,7 @@ class Explorer(object):
 
 
 # ------------------------------------------------------------------ replay
-def replay(scn, labels, check=True):
+def replay(scn, labels, check=True, stop_on_violation=True):
     """Plain replayer: follows the recorded choices on a fresh environment.
     Returns dict(hashes, violations, outcome, diverged)."""
     scn.setup()
@@ -408,8 +408,9 @@ def replay(scn, labels, check=True):
                 v = ['%s [history: %s]' % (m, ', '.join(tags)) for m in v]
             if v:
                 out['violations'].extend(v)
-                hashes.append(None)
-                return out
+                if stop_on_violation:
+                    hashes.append(None)
+                    return out
         hashes.append(env.state_hash_of(snap, scn.extra_state(),
                                         keep_clock=scn.hash_clock))
     ch = env.enabled_choices()
